@@ -303,7 +303,7 @@ package fsutil
 //@   property C06
 //@   requires s != nil && s.files != nil
 //@   modifies heap
-//@   effects SendMsg MuLock MuUnlock RecvMsg RecvDone StatRecv ChanSend
+//@   effects SendMsg MuLock MuUnlock RecvMsg RecvDone StatRecv ChanSend CtxErr
 //@   ensures fin: result == nil ==> cnt(SendMsg) >= old(cnt(SendMsg)) + 1 && arg(SendMsg, 0) == types.PACKET_FIN
 
 // ---------------------------------------------------------------------------
@@ -340,6 +340,7 @@ package fsutil
 
 //@ func wrappedWriteCloser.Wait
 //@   property C07
+//@   effects CtxErr
 //@   requires w != nil
 
 // forwarding an entry to the diff: one channel send carrying exactly that entry
@@ -359,7 +360,7 @@ package fsutil
 //@   property C07
 //@   requires w != nil
 //@   modifies w.err
-//@   effects ChanSend
+//@   effects ChanSend CtxErr
 //@   loop 0 invariant untouched: w.err == old(w.err)
 //@   ensures recorded: result != nil ==> w.err != nil
 //@   ensures clean_end: result == nil ==> w.err == old(w.err)
@@ -417,7 +418,7 @@ package fsutil
 //@   property C07 C02
 //@   requires r != nil && r.files != nil && r.pipes != nil
 //@   modifies r.files[*], r.pipes[*]
-//@   effects MuLock MuUnlock SendMsg
+//@   effects MuLock MuUnlock SendMsg CtxErr
 //@   ensures unknown: !old(haskey(r.files, p)) ==> result != nil && cnt(SendMsg) == old(cnt(SendMsg))
 //@   ensures known: old(haskey(r.files, p)) ==> cnt(SendMsg) == old(cnt(SendMsg)) + 1 && arg(SendMsg, 0) == types.PACKET_REQ && arg(SendMsg, 1) == old(r.files[p])
 //@   ensures consumed: !haskey(r.files, p)
@@ -706,6 +707,7 @@ package fsutil
 //@   modifies heap
 //@   effects *
 //@   at call path/filepath.WalkDir: inode_map_new_and_empty: fresh(seenFiles) && len(seenFiles) == 0 && arg0 == filepath.Join(fs.root, target)
+//@   ensures never_skipdir: result != filepath.SkipDir
 
 // the walk callback: the root itself is never reported; every other entry is
 // forwarded at most once (exactly once unless the context is done) under its
@@ -714,15 +716,29 @@ package fsutil
 //@   property C09
 //@   requires fs != nil
 //@   requires skipdir_is_an_error: filepath.SkipDir != nil
-//@   effects WalkFn
+//@   effects WalkFn CtxErr
 //@   ensures root_skipped: filepath.Rel#1(fs.root, path) == nil && filepath.Rel(fs.root, path) == "." ==> cnt(WalkFn) == old(cnt(WalkFn)) && retErr == nil
 //@   ensures atmost: cnt(WalkFn) <= old(cnt(WalkFn)) + 1
 //@   ensures relpath: cnt(WalkFn) > old(cnt(WalkFn)) ==> arg(WalkFn, 0) == filepath.Rel(fs.root, path) && arg(WalkFn, 0) != "." && arg(WalkFn, 2) == walkErr && (dirEntry == nil) == (arg(WalkFn, 1) == nil)
-//@   ensures forwarded: retErr == nil && !(filepath.Rel(fs.root, path) == ".") ==> cnt(WalkFn) == old(cnt(WalkFn)) + 1
+// every other entry is forwarded exactly once unless the context is done (a vanished
+// non-directory is forwarded too: the callback is what notices that it is gone)
+//@   ensures forwarded: retErr == nil && filepath.Rel#1(fs.root, path) == nil && !(filepath.Rel(fs.root, path) == ".") ==> cnt(WalkFn) == old(cnt(WalkFn)) + 1 || cnt(CtxErr) > old(cnt(CtxErr))
 // what is forwarded wraps the entry WalkDir delivered (an os entry: assumed for the callback),
 // with no stat yet, the walk's shared inode map, and both forms of the path
 //@   requires walkdir_delivers_os_entries: dirEntry == nil || specOSEntry(dirEntry)
 //@   ensures lazy_entry: cnt(WalkFn) > old(cnt(WalkFn)) && dirEntry != nil ==> isptr(arg(WalkFn, 1), DirEntryInfo) && asptr(arg(WalkFn, 1), DirEntryInfo) != nil && fresh(asptr(arg(WalkFn, 1), DirEntryInfo)) && asptr(arg(WalkFn, 1), DirEntryInfo).entry == dirEntry && specOSEntry(asptr(arg(WalkFn, 1), DirEntryInfo).entry) && asptr(arg(WalkFn, 1), DirEntryInfo).Stat == nil && asptr(arg(WalkFn, 1), DirEntryInfo).seenFiles == seenFiles && asptr(arg(WalkFn, 1), DirEntryInfo).origpath == path && asptr(arg(WalkFn, 1), DirEntryInfo).path == filepath.Rel(fs.root, path)
+
+// the composite walk: a SkipDir answer for a sub-root entry means "not interested in this
+// sub-root" - the walk goes on with the next one and never hands SkipDir to its own caller
+// (it did: a filter pruning a whole sub-root made the walk fail - found and repaired, F15)
+//@ func subDirFS.Walk
+//@   property C09 C10 C18
+//@   requires fs != nil
+//@   requires skipdir_is_an_error: filepath.SkipDir != nil
+//@   requires subroots_have_stats: forall k int :: {fs.dirs[k]} 0 <= k && k < len(fs.dirs) ==> fs.dirs[k].Stat != nil
+//@   modifies heap
+//@   effects *
+//@   ensures never_skipdir: result != filepath.SkipDir
 
 // composite filesystems: every stat and link name of a sub-walk is prefixed with
 // the sub-root's name (absolute symlink targets are re-rooted, relative ones kept)
@@ -787,6 +803,7 @@ package fsutil
 //@   modifies heap
 //@   effects *
 //@   at call FS.Walk: link_map_new_and_empty: fresh(seenFiles) && len(seenFiles) == 0 && arg1 == target
+//@   ensures never_skipdir: result != filepath.SkipDir
 
 //@ func hardlinkFilter.Walk$1
 //@   property C11
@@ -1157,7 +1174,7 @@ package fsutil
 // produced for it (never without one), under the walk's path
 //@ func getWalkerFn$1$1
 //@   property C01 C02 C05
-//@   effects ChanSend
+//@   effects ChanSend CtxErr
 //@   ensures passerr: err != nil ==> result == err && cnt(ChanSend) == old(cnt(ChanSend))
 //@   ensures nostat: err == nil && !isptr(f.Sys(), types.Stat) ==> result != nil && cnt(ChanSend) == old(cnt(ChanSend))
 //@   ensures forwarded: cnt(ChanSend) > old(cnt(ChanSend)) ==> cnt(ChanSend) == old(cnt(ChanSend)) + 1 && ptr(arg(ChanSend, 1), currentPath).path == path && ptr(arg(ChanSend, 1), currentPath).stat == asptr(f.Sys(), types.Stat)
